@@ -7,6 +7,8 @@ import (
 	"os"
 	"os/exec"
 	"path/filepath"
+	"strconv"
+	"strings"
 	"sync/atomic"
 	"time"
 )
@@ -115,7 +117,26 @@ func RunEnv(dir, bin string, args []string, stdin *string, how string, env []str
 }
 
 // WriteFile writes content into dir/name and returns the path.
+// ExpandBytes replaces every marker of the form ⟦XX⟧ (two hex digits between white square brackets) by the byte
+// 0xXX. Cases travel between processes and into replay files as JSON, which cannot carry invalid UTF-8; the
+// marker can, and it is expanded only where the bytes are handed to jd.
+func ExpandBytes(s string) string {
+	const open, shut = "\u27e6", "\u27e7"
+	for {
+		i := strings.Index(s, open)
+		if i < 0 || len(s) < i+len(open)+2+len(shut) || s[i+len(open)+2:i+len(open)+2+len(shut)] != shut {
+			return s
+		}
+		b, err := strconv.ParseUint(s[i+len(open):i+len(open)+2], 16, 8)
+		if err != nil {
+			return s
+		}
+		s = s[:i] + string([]byte{byte(b)}) + s[i+len(open)+2+len(shut):]
+	}
+}
+
 func WriteFile(dir, name, content string) string {
+	content = ExpandBytes(content)
 	p := filepath.Join(dir, name)
 	if err := os.WriteFile(p, []byte(content), 0644); err != nil {
 		panic(err)
